@@ -121,4 +121,21 @@ example : Memory.Valid { GarbageCollectionInterval := 1, PeerLifetime := 1, Prom
 example : ¬ Memory.Valid (({ GarbageCollectionInterval := 1, PeerLifetime := 1, PrometheusReportingInterval := 1, ShardCount := 4611686018427387904 } : Memory.Cfg)) := by
   simp [Memory.Valid]
 
+/-! ## frontends: which configurations are refused, and what a refusal leaves behind -/
+
+/-- an HTTP frontend is built exactly for: at least one address, routes, a TLS key pair that loads whenever both
+paths are given, TLS configured iff an HTTPS address is, and every given port free -/
+theorem http_frontend_built_iff (a h : Config.AddrKind) (t : Config.TlsKind) (r : Bool) :
+    Config.httpNewFrontend a h t r = .built ↔
+      (a ≠ .absent ∨ h ≠ .absent) ∧ r = true ∧ t ≠ .unloadable ∧ (h ≠ .absent ↔ t = .good) ∧ a ≠ .busy ∧ h ≠ .busy := by
+  cases a <;> cases h <;> cases t <;> cases r <;> simp [Config.httpNewFrontend]
+
+/-- no refusal leaves the HTTP listener bound (in particular not the one taken before the HTTPS port turned out busy) -/
+theorem http_frontend_refusal_leaves_nothing (a h : Config.AddrKind) (t : Config.TlsKind) (r : Bool) :
+    Config.httpNewFrontend a h t r ≠ .refused true := by
+  cases a <;> cases h <;> cases t <;> cases r <;> simp [Config.httpNewFrontend]
+
+theorem udp_frontend_built_iff (a : Config.AddrKind) : Config.udpNewFrontend a = .built ↔ a ≠ .busy := by
+  cases a <;> simp [Config.udpNewFrontend]
+
 end C20
